@@ -116,8 +116,13 @@ def build(spec, ns, dt):
         return T.ProbitTransform(lower=lo, upper=hi, xp=xp, dtype=dtype)
     if kind == "affine":
         return T.AffineTransform(xp=xp, dtype=dtype)
-    params = [f"p{k}" for k in range(d)]
-    pb = {p: [float(l), float(u)] for p, l, u in zip(params, lo, hi)}
+    if spec.get("names") == "unsorted":
+        # names whose alphabetical order differs from their position; bounds dict given in reverse order
+        params = ["zz", "mm", "aa"][:d]
+        pb = {p: [float(l), float(u)] for p, l, u in reversed(list(zip(params, lo, hi)))}
+    else:
+        params = [f"p{k}" for k in range(d)]
+        pb = {p: [float(l), float(u)] for p, l, u in zip(params, lo, hi)}
     if kind == "composite":
         return T.CompositeTransform(parameters=params, periodic_parameters=[params[k] for k in spec["periodic"]],
                                     prior_bounds=pb, bounded_to_unbounded=spec["b2u"], bounded_transform=spec["bt"],
@@ -439,7 +444,9 @@ def specs(tier):
     for sp in out:
         if sp["batch"] >= 3 and (sp["kind"] == "affine" or sp.get("affine")):
             refits.append(dict(sp, refit=True))
-    return out + refits
+    named = [dict(sp, names="unsorted") for sp in out
+             if sp["kind"] in ("composite", "flowtransform") and sp["d"] >= 2 and sp["batch"] == 7 and len({tuple(b) for b in sp["bounds"]}) > 1]
+    return out + refits + named
 
 
 def dispatch(job):
